@@ -99,7 +99,17 @@ class Ctx:
         return self.tier == "quick"
 
     def scale(self, quick, thorough):
-        return quick if self.tier == "quick" else thorough
+        """Number of cases of a stream.  When a proof obligation or pin is already broken (the tie between model and
+        source no longer checks) the quick tier searches harder for a failing input: 4x the quick volume, capped by
+        the thorough volume."""
+        if self.tier != "quick":
+            return thorough
+        if self.obl_failures or any(not o.get("ok", True) for o in self.obligations):
+            try:
+                return min(thorough, quick * 4)
+            except TypeError:
+                return quick
+        return quick
 
     def count(self, n=1):
         self.evaluations += n
